@@ -200,7 +200,7 @@ def execute(ctx, sc):
         d = dict(detail0, var=i, what="final observation")
         if (a is None) != (b is None):
             raise Violation("twin", f"{fmt.name}.var.one_fails", dict(d, lazy_result=core.short(a, 300), eager_result=core.short(b, 300)))
-        for key in ("len", "rows", "write"):
+        for key in ("len", "rows", "tolist", "write"):
             if key not in a and key not in b:
                 continue
             if not core.same(a.get(key), b.get(key)):
